@@ -523,7 +523,12 @@ func (s *socket) sendPacket(
 
 // Attempts to flush the packets buffer.
 func (s *socket) flush() {
-	s.flushMu.Lock()
+	// flush and drain listeners run with the lock held and may call Send or Close
+	// themselves: a flush already in progress must not be waited for (the packets
+	// stay buffered and go out with the next ready event)
+	if !s.flushMu.TryLock() {
+		return
+	}
 	defer s.flushMu.Unlock()
 
 	if s.ReadyState() != "closed" && s.Transport().Writable() {
